@@ -370,10 +370,10 @@ class Neo4jPropertyGraph(ABCPropertyGraph):
         Does the graph with this ID exist?
         :return:
         """
-        inner_query = f'match(n:GraphNode {{GraphID: "{self.graph_id}"}}) -[r]- (m) return n, r, m'
+        inner_query = 'match(n:GraphNode {GraphID: $graphId}) -[r]- (m) return n, r, m'
         # run  query to check the graph has anything in it
         with self.driver.session() as session:
-            val = session.run(inner_query)
+            val = session.run(inner_query, graphId=self.graph_id)
             if val.peek() is None:
                 return False
         return True
